@@ -112,10 +112,40 @@ static void h_add(const vcase *c) {
     gbuf_free(&g);
 }
 
+/* the header's Quick macros */
+static void h_lenq(const vcase *c) {
+    uint64_t x = arg_u64(c, 0);
+    out_u64("ret", (uint64_t)varintTaggedLenQuick(x));
+}
+
+static void h_getlenq(const vcase *c) {
+    gpage in = page_arg(c, 0);
+    out_u64("ret", (uint64_t)varintTaggedGetLenQuick_(in.p));
+    gpage_free(&in);
+}
+
+static void h_getq(const vcase *c) {
+    gpage in = page_arg(c, 0);
+    out_u64("ret", (uint64_t)varintTaggedGet64Quick_(in.p));
+    gpage_free(&in);
+}
+
+/* src_tagged_fixedq x width hexbuf */
+static void h_fixedq(const vcase *c) {
+    gbuf g = buf_arg(c, 2);
+    uint64_t x = arg_u64(c, 0);
+    varintWidth w = (varintWidth)arg_u64(c, 1);
+    varintTaggedPut64FixedWidthQuick_(g.p, x, w);
+    if (strcmp(gbuf_guard(&g), "ok") != 0) out_str("buf", gbuf_guard(&g));
+    else out_hex("buf", g.p, g.size);
+    gbuf_free(&g);
+}
+
 static const vreg tab[] = {
     {"src_tagged_len", h_len},     {"src_tagged_getlen", h_getlen}, {"src_tagged_put", h_put},
     {"src_tagged_put32", h_put32}, {"src_tagged_fixed", h_fixed},   {"src_tagged_get", h_get},
     {"src_tagged_get64", h_get64}, {"src_tagged_get32", h_get32},   {"src_tagged_getrv", h_getrv},
-    {"src_tagged_add", h_add},
+    {"src_tagged_add", h_add},     {"src_tagged_lenq", h_lenq},     {"src_tagged_getlenq", h_getlenq},
+    {"src_tagged_getq", h_getq},   {"src_tagged_fixedq", h_fixedq},
 };
 VREGISTER(tab)
